@@ -53,6 +53,14 @@ SEED_DOCS = [
     ("seed:block-scalars", 'groups:\n- name: g\n  rules:\n  - alert: A\n    expr: |\n      up\n        == 0\n    annotations:\n      summary: >-\n        {{ $labels.job }}\n        is down\n'),
 ]
 
+# inputs that only the binary may see: they kill the whole process (fatal error: stack overflow cannot be recovered in-process)
+BIN_ONLY_SEEDS = [
+    ("binseed:template-alias-cycle", 'groups:\n- name: g\n  rules:\n  - alert: A\n    expr: up == 0\n    annotations:\n      summary: "{{ $a := .Labels }}{{ $b := $a }}{{ $a := $b }}{{ $a.job }}"\n'),
+    ("binseed:require-owner-invalid-rule", 'groups:\n- name: g\n  rules:\n  - record: foo\n    expr: up\n    for: 5m\n'),
+    ("binseed:require-owner-valid-rules", 'groups:\n- name: g\n  rules:\n  - record: foo\n    expr: up\n  - alert: A\n    expr: up == 0\n'),
+    ("binseed:owner-comments", '# pint file/owner team-a\ngroups:\n- name: g\n  rules:\n  # pint rule/owner team-b\n  - record: foo\n    expr: up\n  - alert: "quote\'s"\n    expr: up == 0\n    for: 1x\n'),
+]
+
 JUDGE_CHUNK = 60000
 NVAR = 4          # variants per input (harness: c02Variants)
 
@@ -65,6 +73,9 @@ def sig_of(v):
         return "C02:%s:%s:%s:%s" % (what, d.get("stage", ""), d.get("sig", ""), feat)
     if what in ("bin-crash", "bin-hang"):
         return "C02:%s:exit=%s:%s:%s" % (what, d.get("exit"), d.get("sig", ""), feat)
+    if what == "bin-output":
+        bad = [k for k in ("json", "checkstyle") if d[k]["written"] and not d[k]["wf"]] + (["teamcity"] if d["teamcity"]["used"] and not d["teamcity"]["wf"] else [])
+        return "C02:bin-output:%s:%s:%s" % (",".join(bad), d.get("flags", ""), feat)
     if what == "lines":
         cls = set()
         for r in d:
@@ -146,7 +157,8 @@ def run(ctx, replay_case=None):
                      files={"c02_mc.cfg": MC_CFG % ((3, 2) if thorough else (2, 2))})
         if mc["invariant_violated"]:
             raise MachineryError("Pipeline machine violates its own promises: %s" % mc["invariant_violated"])
-        # ---- GEN: structure-aware documents from StrictSchema (rendered by the harness)
+        # ---- GEN: structure-aware documents from StrictSchema (rendered by the harness). The schema is not part of the bytes:
+        # every document (incl. the partial_response_strategy statuses) is linted in strict+relaxed x Prometheus+Thanos variants
         docs = gen_docs(ctx, 2 if thorough else 1)
         if thorough:
             docs = [d for i, d in enumerate(docs) if len(c01mod.devs_of(d)) <= 1 or i % 9 == ctx.seed % 9]
@@ -173,6 +185,17 @@ def run(ctx, replay_case=None):
     stride = max(1, ninputs // nbin)
     ctx.vh("exec-c02-bin", bpath, btpath, min(nbin, ninputs), pint, stride, timeout=3300)
     btrace = read_ndjson(btpath)
+    if replay_case is None:
+        # binary-only seeds, each under 60 flag combinations of the slice (the run index k picks the flags)
+        for si, (n_, t_) in enumerate(BIN_ONLY_SEEDS):
+            sbpath = write_ndjson(ctx.path("c02_binseed_%d.ndjson" % si), [{"name": n_, "yaml_b64": base64.b64encode(t_.encode()).decode()}])
+            sbt = ctx.path("c02_binseed_trace_%d.ndjson" % si)
+            ctx.vh("exec-c02-bin", sbpath, sbt, 60, pint, 0, 4, timeout=3300)   # 4 at a time: a crashing run may grow a 1 GB stack      # stride 0: the same input, k = 0..59 picks the flags
+            more = read_ndjson(sbt)
+            for r in more:
+                r["id"] += len(btrace)
+            btrace += more
+        write_ndjson(btpath, btrace)
     # ---- JUDGE (streaming) + accounting
     st = {"reads": 0, "herr": None, "entries": 0, "reports": 0, "crash": 0, "hang": 0, "cur": None, "ops": set()}
     input_of, outcomes = {}, set()
